@@ -13,8 +13,9 @@ Model of the validation interface used by `jinns.solve` and of the built-in
       early_stop = (self.counter == self.patience) and self.early_stopping     -- OLD counter
 
   `best_val_loss` starts at `+inf` : modelled as `Option Rat` with `none = +∞`.
-  The generators (`nextBatch`) and the loss are parameters.  A NaN loss value is outside this
-  model (the comparison `v < best` would be false).
+  The generators (`nextBatch`) and the loss are parameters.  A NaN loss value (`none`) makes the
+  comparison `v < best` false: the increment branch is taken (counter + 1, best unchanged, no
+  improvement) and the criterion recorded is NaN (`vlNextV`, `vlImprovedV`).
 Imports nothing outside core Lean.
 -/
 namespace Jinns.Validation
@@ -61,24 +62,37 @@ def vlAfter : VLCore → List Rat → VLCore
   | s, [] => s
   | s, v :: vs => vlAfter (vlNext s v) vs
 
+/-- the same with a possibly-NaN loss value (`none`): `NaN < best` is false -/
+def vlImprovedV (s : VLCore) : Option Rat → Bool
+  | none => false
+  | some v => vlImproved s v
+
+def vlNextV (s : VLCore) : Option Rat → VLCore
+  | none => { counter := s.counter + 1, best := s.best }
+  | some v => vlNext s v
+
+def vlAfterV : VLCore → List (Option Rat) → VLCore
+  | s, [] => s
+  | s, v :: vs => vlAfterV (vlNextV s v) vs
+
 /-- `ValidationLoss` as a module: its own generator state and the scalar core. -/
 structure VL (G : Type) where
   gens : G
   core : VLCore
 
 structure VLConf (Θ G B : Type) where
-  nextBatch : G → G × B          -- its own data (+ parameter + observation) generators
-  loss      : Θ → B → Rat        -- `self.loss(params, val_batch)[0]`
+  nextBatch : G → G × B            -- its own data (+ parameter + observation) generators
+  loss      : Θ → B → Option Rat   -- `self.loss(params, val_batch)[0]` (`none` = NaN)
   patience  : Nat
   early     : Bool
 
 /-- `ValidationLoss.__call__(params)` -/
-def VL.call {Θ G B : Type} (cf : VLConf Θ G B) (s : VL G) (θ : Θ) : VOut (VL G) Rat :=
+def VL.call {Θ G B : Type} (cf : VLConf Θ G B) (s : VL G) (θ : Θ) : VOut (VL G) (Option Rat) :=
   let gb := cf.nextBatch s.gens
   let v := cf.loss θ gb.2
-  { vs := { gens := gb.1, core := vlNext s.core v },
+  { vs := { gens := gb.1, core := vlNextV s.core v },
     stop := vlStop cf.patience cf.early s.core,
     crit := v,
-    improved := vlImproved s.core v }
+    improved := vlImprovedV s.core v }
 
 end Jinns.Validation
